@@ -138,27 +138,42 @@ def escaping_rule(ctx, r1):
                 r1.check(k in ('none-test', 'arg:quoteattr/1/0'), '%s: use of attribute value' % fname, rel, u.lineno,
                          'attribute value reaches the output (or its width) other than through quoteattr(value): %s in `%s`'
                          % (k, P.src(P.enclosing_stmt(u))), detail=k)
-    # element text
+    # element text: followed from build_xml_tag through module-level helpers that are handed the text
     f = py.func('xmlwriter', 'build_xml_tag')
     dname = 'data'
     if dname not in [a.arg for a in f.args.args]:
         raise AnalysisError('build_xml_tag has no `data` parameter')
-    stores = [(t, v, st) for t, v, st in P.stores_in(f) if isinstance(t, ast.Name) and t.id == dname]
-    for t, v, st in stores:
-        g = [x.text() for x in P.guards(st) if x.kind == 'if']
-        ok = isinstance(v, ast.Call) and isinstance(v.func, ast.Attribute) and v.func.attr == 'decode' \
-            and isinstance(v.func.value, ast.Name) and v.func.value.id == dname \
-            and [str(py.try_fold(a, m)).lower().replace('-', '') for a in v.args] == ['utf8'] \
-            and any('isinstance(%s, bytes)' % dname in x for x in g)
-        r1.check(ok, 'build_xml_tag: text rebinding', rel, st.lineno,
-                 'element text is transformed before escaping: `%s`' % P.src(st), detail=P.src(st))
-    for u in uses_of(f, dname):
-        k = classify_use(u)
-        r1.check(k in ('none-test', 'isinstance', 'method:decode', 'arg:escape/1/0'), 'build_xml_tag: use of element text',
-                 rel, u.lineno, 'element text reaches the output other than through escape(data): %s in `%s`'
-                 % (k, P.src(P.enclosing_stmt(u))), detail=k)
-    esc = [c for c in P.calls_in(f) if P.call_name(c) == 'escape']
-    r1.check(len(esc) == 1 and len(esc[0].args) == 1 and not esc[0].keywords and P.src(esc[0].args[0]) == dname,
+    esc_total = []
+
+    def follow(fn, pname, depth):
+        stores = [(t, v, st) for t, v, st in P.stores_in(fn) if isinstance(t, ast.Name) and t.id == pname]
+        for t, v, st in stores:
+            g = [x.text() for x in P.guards(st) if x.kind in ('if', 'early')]
+            ok = isinstance(v, ast.Call) and isinstance(v.func, ast.Attribute) and v.func.attr == 'decode' \
+                and isinstance(v.func.value, ast.Name) and v.func.value.id == pname \
+                and [str(py.try_fold(a, m)).lower().replace('-', '') for a in v.args] == ['utf8'] \
+                and any('isinstance(%s, bytes)' % pname in x for x in g)
+            r1.check(ok, '%s: text rebinding' % fn.name, rel, st.lineno,
+                     'element text is transformed before escaping: `%s`' % P.src(st), detail=P.src(st))
+        for u in uses_of(fn, pname):
+            k = classify_use(u)
+            mm_ = re.match(r'^arg:(\w+)/', k)
+            if mm_ and mm_.group(1) in m.functions and mm_.group(1) not in ('escape', 'quoteattr') and depth < 2:
+                callee = m.functions[mm_.group(1)]
+                call = P.parent(u)
+                bound = P.bind_call(call, callee, skip_self=False) if isinstance(call, ast.Call) else {}
+                pn = [k_ for k_, v_ in bound.items() if v_ is u]
+                if len(pn) == 1:
+                    follow(callee, pn[0], depth + 1)
+                    continue
+            r1.check(k in ('none-test', 'isinstance', 'method:decode', 'arg:escape/1/0'), '%s: use of element text' % fn.name,
+                     rel, u.lineno, 'element text reaches the output other than through escape(data): %s in `%s`'
+                     % (k, P.src(P.enclosing_stmt(u))), detail=k)
+        for c in P.calls_in(fn):
+            if P.call_name(c) == 'escape':
+                esc_total.append((c, pname))
+    follow(f, dname, 0)
+    r1.check(len(esc_total) == 1 and len(esc_total[0][0].args) == 1 and not esc_total[0][0].keywords and P.src(esc_total[0][0].args[0]) == esc_total[0][1],
              'build_xml_tag: escape(data)', rel, f.lineno, 'element text is not escaped exactly once with the stdlib default entity set')
     # write_line(do_escape)
     wl = py.func('xmlwriter', 'XMLWriter.write_line')
@@ -279,7 +294,7 @@ def check(ctx):
                         r3.check(ok, 'attribute piece written for every non-None value', rel, e.lineno, 'an attribute with a value can be dropped: piece reached under %s' % g, detail=str(g))
     r3.check(attr_piece >= 1, 'attribute written as space, name, "=", quoted value', rel, f.lineno, 'no piece of the form " " name "=" quoteattr(value) found in %s' % ename)
     # build_xml_tag assembly
-    BT = gsa.summarise(ctx, 'xmlwriter', 'build_xml_tag', inline_only=())
+    BT = gsa.summarise(ctx, 'xmlwriter', 'build_xml_tag', inline_module_funcs=True, opaque=('collect_attributes', '_calc_attrs_length'))
     f = BT.func
     tagp = BT.P(0)
     shapes = []
